@@ -199,6 +199,74 @@ def sql_frame_scan(ctx: RunCtx):
 ADVERSARIAL = ["app", "App", "app_b", "app-b", "app.b", "app b", "1app", "", "_", "app%", "app_", "a'b", 'a"b', "a;DROP TABLE x;--", "äpp", "app\n"]
 
 
+COMPONENT_MODULES = ["pynenc.orchestrator.base_orchestrator", "pynenc.orchestrator.mem_orchestrator", "pynenc.orchestrator.sqlite_orchestrator",
+                     "pynenc.broker.base_broker", "pynenc.broker.mem_broker", "pynenc.broker.sqlite_broker",
+                     "pynenc.state_backend.base_state_backend", "pynenc.state_backend.mem_state_backend", "pynenc.state_backend.sqlite_state_backend",
+                     "pynenc.trigger.base_trigger", "pynenc.trigger.mem_trigger", "pynenc.trigger.sqlite_trigger",
+                     "pynenc.client_data_store.base_client_data_store", "pynenc.client_data_store.mem_client_data_store",
+                     "pynenc.client_data_store.sqlite_client_data_store"]
+
+
+def state_lives_in_instances(ctx: RunCtx):
+    """Syntactic obligations: a backend component keeps its state per instance (one instance per app). A mutable container bound at class level
+    or at module level and written by a method is shared by every app of the process - in-memory apps with different ids would see each other."""
+    import ast
+    out = []
+
+    def ob(name, ok, detail=""):
+        o = Obligation(name=f"{PID}/per-app-state/{name}", kind="frame", pc=[], goal=z3.BoolVal(bool(ok)), function=name.split(":")[0])
+        o.detail = detail
+        out.append(o)
+    MUTABLE_CALLS = {"dict", "list", "set", "OrderedDict", "defaultdict", "deque", "Counter"}
+
+    def is_mutable(v):
+        if isinstance(v, (ast.Dict, ast.List, ast.Set, ast.DictComp, ast.ListComp, ast.SetComp)):
+            return True
+        if isinstance(v, ast.Call):
+            f = v.func
+            nm = f.id if isinstance(f, ast.Name) else (f.attr if isinstance(f, ast.Attribute) else "")
+            return nm in MUTABLE_CALLS
+        return False
+    def keyed_by_app_id(cls, attr) -> bool:
+        """a process-wide registry is fine when every element access names the app id (entries of different apps never meet)"""
+        uses = 0
+        for node in ast.walk(cls):
+            if isinstance(node, ast.Attribute) and node.attr == attr and isinstance(node.ctx, ast.Load):
+                uses += 1
+        ok_uses = 0
+        for node in ast.walk(cls):
+            if isinstance(node, ast.Subscript) and isinstance(node.value, ast.Attribute) and node.value.attr == attr:
+                if "app_id" in ast.unparse(node.slice):
+                    ok_uses += 1
+            elif isinstance(node, ast.Compare) and any(isinstance(c, ast.Attribute) and c.attr == attr for c in node.comparators):
+                if "app_id" in ast.unparse(node.left):
+                    ok_uses += 1
+            elif isinstance(node, ast.Call) and isinstance(node.func, ast.Name) and node.func.id in ("dict", "list") and node.args and \
+                    isinstance(node.args[0], ast.Attribute) and node.args[0].attr == attr:
+                ok_uses += 1        # a copy of the whole registry (discovery of all apps: not an operation of one app)
+        return uses > 0 and ok_uses == uses
+    n_classes = 0
+    for modname in COMPONENT_MODULES:
+        if not ctx.src.has_module(modname):
+            continue
+        tree = ctx.src.module(modname).tree if hasattr(ctx.src.module(modname), "tree") else ast.parse(ctx.src.module(modname).text)
+        for cls in [n for n in tree.body if isinstance(n, ast.ClassDef)]:
+            n_classes += 1
+            shared = []
+            for st in cls.body:
+                tgt, val = None, None
+                if isinstance(st, ast.Assign) and len(st.targets) == 1 and isinstance(st.targets[0], ast.Name):
+                    tgt, val = st.targets[0].id, st.value
+                elif isinstance(st, ast.AnnAssign) and isinstance(st.target, ast.Name) and st.value is not None:
+                    tgt, val = st.target.id, st.value
+                if tgt and is_mutable(val) and not (tgt.isupper() or tgt.startswith("__")) and not keyed_by_app_id(cls, tgt):
+                    shared.append(f"{tgt} (line {st.lineno})")
+            ob(f"{modname}:{cls.name}:no-mutable-container-bound-at-class-level", not shared,
+               detail="class-level mutable attribute(s) shared by all apps of the process: " + ", ".join(shared))
+    ob("component-classes-scanned", n_classes >= 15, f"{n_classes} classes")
+    return out
+
+
 def shared_file_isolation(ctx: RunCtx) -> BoundedResult:
     import hashlib
     import tempfile
@@ -269,7 +337,7 @@ def build(ctx: RunCtx) -> Prop:
         pid=PID, title="sanitize_table_prefix yields an SQL identifier = sanitised id + '_' + 8 hex of sha256(id) for every id string; equal prefixes need "
                        "equal hash and sanitised parts; SQL text is built from literals and own table names only; purge footprint checked on a shared file",
         level="proof", technique="contract-based deductive verification over z3/cvc5 strings (AST->SMT of sanitize_table_prefix) + SQL-text frame scan + bounded adversarial shared-file runs",
-        registry=reg, verify=verify, lemmas=[lemmas, sql_frame_scan], bounded=[shared_file_isolation],
+        registry=reg, verify=verify, lemmas=[lemmas, sql_frame_scan, state_lives_in_instances], bounded=[shared_file_isolation],
         replayers={"*sanitize_table_prefix*": replay_sanitize},
         assumptions=["re.sub(r'[^a-zA-Z0-9_]', '_', s): same length, result in [A-Za-z0-9_]*, identity on such strings (assumed contract, conformance-tested)",
                      "hashlib.sha256(...).hexdigest(): 64 lowercase hex digits, a function of the input; collisions of the first 8 digits are reported as 'modulo hash'",
